@@ -76,7 +76,8 @@ ToSetOf(s) == {s[i] : i \in 1..Len(s)}
 (*           kind \in {"in","single","follow"}                               *)
 (*   dynOn, dynThen, dynElse : on receiving the value of dynOn request       *)
 (*           dynThen if the value is odd, else dynElse                       *)
-(*   disc  : Seq(leaf key)    discovered dependencies (read directly)        *)
+(*   disc  : Seq(key)         discovered dependencies (leaves are read         *)
+(*           directly from ext; derived keys are only reported)               *)
 (*   proj  : Seq(key)         inputs that influence the value                *)
 (*   base, force, valid, sig                                                 *)
 (*   out   : the task writes its value to the external cell ext[k] while it  *)
@@ -98,7 +99,8 @@ SumGot(reqs, got, proj) ==
   ELSE (IF Head(reqs).k \in proj /\ Head(reqs).kind # "follow" THEN Head(got) ELSE 0)
        + SumGot(Tail(reqs), Tail(got), proj)
 RECURSIVE SumExt(_)
-SumExt(ds) == IF ds = <<>> THEN 0 ELSE ext[Head(ds)] + SumExt(Tail(ds))
+SumExt(ds) == IF ds = <<>> THEN 0 ELSE (IF IsLeaf(Head(ds)) THEN ext[Head(ds)] ELSE 0) + SumExt(Tail(ds))
+   \* (a discovered DERIVED key is reported as a dependency but not read: it only has to be brought up to date)
 
 ComputeVal(r, reqs, got) ==
   IF IsLeaf(r) THEN ext[r]
@@ -171,6 +173,13 @@ RecordedDeps(r, pi) ==
 WaitsFor(a, b) ==
   \/ ScanBlockedOn(a, b)
   \/ st[a] = "waiting" /\ b \in Outstanding(a)
+
+(* the relation a cycle report follows: real wait-for edges, and - for a rule that already completed in this build - *)
+(* its discovered dependencies that are still being brought up to date (the build cannot finish before they are)      *)
+CycleEdge(a, b) ==
+  \/ WaitsFor(a, b)
+  \/ /\ Done(a) /\ a \in ran /\ ~Done(b)
+     /\ \E i \in 1..Len(mem[a].deps) : mem[a].deps[i].k = b /\ mem[a].deps[i].disc
 
 CanStep ==
   \/ \E k \in Keys : Wanted(k) /\ st[k] \in {"idle", "needsrun", "uptodate"}
@@ -463,7 +472,7 @@ CycleDetected(list) ==
   /\ Running /\ EngineFree /\ ~cyc
   /\ Stuck
   /\ Len(list) >= 2 /\ list[1] = target
-  /\ \A i \in 1..(Len(list) - 1) : WaitsFor(list[i], list[i+1])
+  /\ \A i \in 1..(Len(list) - 1) : CycleEdge(list[i], list[i+1])
   /\ \E i \in 1..(Len(list) - 1) : list[i] = list[Len(list)]
   /\ cyc' = TRUE
   /\ draining' = TRUE
